@@ -72,6 +72,7 @@ type scheduler struct {
 	wvc         map[*lockState]vclock
 	rvc         map[*lockState]vclock
 	switches    int
+	atomVC      map[*value]vclock
 	wg          sync.WaitGroup
 }
 
